@@ -253,7 +253,7 @@ def eihLen (ctx : Ctx) (d : Dec) : Nat := if requireEih ctx d.sess then 16 else 
 def fixedHeaderLen (ctx : Ctx) (d : Dec) : Nat := eihLen ctx d + 1 + 8 + reqSaltLen ctx d + 2 + 16
 
 /-- `init2022` with its lengths named (`rfl`-level restatement of the model) -/
-theorem init2022_eq (C : Crypto) (ctx : Ctx) (env : DecEnv) (d : Dec) (b : Bytes) :
+theorem guards_init2022_eq (C : Crypto) (ctx : Ctx) (env : DecEnv) (d : Dec) (b : Bytes) :
     init2022 C ctx env d b =
       if b.length < saltLen ctx then .need else
       if b.length < saltLen ctx + fixedHeaderLen ctx d then .fail d 0 else
@@ -280,7 +280,7 @@ theorem c07_ss_init2022_reads_in_bounds (C : Crypto) (hC : C.Lawful) (ctx : Ctx)
     ∃ d' s' salt a h, h.length = 1 + 8 + reqSaltLen ctx d + 2 ∧ saltLen ctx + fixedHeaderLen ctx d ≤ b.length ∧
       init2022 C ctx env d b =
         init2022Tail C env d' s' b (saltLen ctx) (fixedHeaderLen ctx d) (reqSaltLen ctx d) salt a h := by
-  rw [init2022_eq]
+  rw [guards_init2022_eq]
   by_cases h1 : b.length < saltLen ctx
   · rw [if_pos h1]; exact Or.inl rfl
   · rw [if_neg h1]
